@@ -414,10 +414,21 @@ func c20Drain(ctx *core.Ctx, r *RT, d *ssa.Function) {
 		if u, ok := ssax.Strip(c.Common.Args[0]).(*ssa.UnOp); ok {
 			if ia, ok := u.X.(*ssa.IndexAddr); ok && len(d.Params) > 1 && ssax.Strip(ia.X) == ssa.Value(d.Params[1]) && inCycle(drainC) {
 				okLoop = true
+				// every trip: from the element load no way to the next element or to a successful return without Drain
+				next := func(in ssa.Instruction) bool {
+					if in == ssa.Instruction(u) {
+						return true
+					}
+					ret, isRet := in.(*ssa.Return)
+					return isRet && successRet(ret)
+				}
+				if ssax.PathFrom(d, u, next, func(in ssa.Instruction) bool { return in == drainC }) != nil {
+					okLoop = false
+				}
 			}
 		}
 	}
-	ctx.Check(okLoop, "C20.R1", dn+" › Drain() on every subscription passed in", fnPos(r, d), "range over the parameter slice calling sub.Drain()", "not every subscription is drained")
+	ctx.Check(okLoop, "C20.R1", dn+" › Drain() on every subscription passed in", fnPos(r, d), "range over the parameter slice calling sub.Drain() on every trip", "not every subscription is drained (some are skipped or removed another way, e.g. Unsubscribe): a request the broker has already routed to this connection is dropped by the client library instead of being processed")
 	steps := []struct {
 		name string
 		in   ssa.Instruction
